@@ -5,7 +5,13 @@ Specification side of C13, written from the property text:
   input signalled, to a fresh parser (`wholeParse`);
 * after a prefix the parser must ask for more input exactly when the prefix is unfinished:
   a bracket, a string or rune literal, a raw string or a block comment is open, or a
-  quote-like prefix operator (% ^ ~ ~@) still lacks its operand (`Unfinished`).
+  quote-like prefix operator (% ^ ~ ~@) still lacks its operand (`Unfinished`);
+* while the end of the input has not been signalled there is one more way of being
+  unfinished: the text so far ends in a top-level `+` or `-`. `-Inf`/`+Inf` are read as a sign
+  token followed by the token `Inf`, so what the sign IS depends on the token that follows,
+  and the first clause (pieces give what the whole text gives, e.g. `- ` then `Inf`) forces the
+  parser to wait for it (`UnfinishedPrefix`). Once the end has been signalled the sign is a
+  symbol and the text is finished (`Unfinished` applied to the text with its end mark).
 
 `Unfinished` is a one-pass bracket counter over the tokens the lexer has emitted for the
 prefix plus the lexer's literal mode; it knows nothing about the parser.
@@ -38,11 +44,27 @@ def unfinishedCore (c : LexCore) (emitted : List Token) : Bool :=
   let n := emitted.foldl Nest.tok {}
   n.depth > 0 || n.inBlock || n.inRaw || n.pend || inLiteral c
 
-/-- `Unfinished t`: the text `t` (no end-of-input mark) is an unfinished prefix. `none`
-when the lexer refuses `t` (then the text is simply wrong). -/
+/-- `Unfinished t`: the text `t` is unfinished (a bracket, literal, raw string or block comment is
+open, or a prefix operator lacks its operand). `none` when the lexer refuses `t` (then the text
+is simply wrong). -/
 def Unfinished (t : List Char) : Option Bool :=
   match feed (.ok LexCore.init) t with
   | .ok c => some (unfinishedCore c c.tokens)
+  | .err _ _ => none
+
+/-- the last token so far is a `+`/`-` symbol outside every bracket: the next token decides
+whether it is that symbol or the sign of `±Inf` -/
+def signPending (emitted : List Token) : Bool :=
+  match emitted.getLast? with
+  | some tk => tk.typ == .symbol && (tk.str == ['-'] || tk.str == ['+']) &&
+      (emitted.foldl Nest.tok {}).depth == 0
+  | none => false
+
+/-- `UnfinishedPrefix t`: `t` is an unfinished prefix of a text whose end has not been
+signalled yet. -/
+def UnfinishedPrefix (t : List Char) : Option Bool :=
+  match feed (.ok LexCore.init) t with
+  | .ok c => some (unfinishedCore c c.tokens || signPending c.tokens)
   | .err _ _ => none
 
 end ZygoVerif.Spec
